@@ -6,6 +6,7 @@ import (
 	"strings"
 
 	"gldapverif/an"
+	"gldapverif/report"
 
 	"golang.org/x/tools/go/ssa"
 )
@@ -18,7 +19,7 @@ func init() {
 		"C06-sequential-read (readRequest is called only synchronously from the read loop), C06-async (every synchronous route to a handler from the loop is control-dependent on routeOp==unbind or extendedName==StartTLS; all other requests reach (*Mux).serve only through a go statement), " +
 		"C06-nojoin (the loop body contains no operation that can wait for a handler), C06-conn-async (serveRequests is reached from Run only through go). Decides numbering and absence of wait edges; scheduler progress is not decided."
 	Descriptions["C10"] = "C10-first (both dispatch sites are control-dependent on routeOp != unbind, and every path from the read reaches the unbind test before a response write, a dispatch or the next read), C10-terminal (from the unbind edge every path leaves serveRequests without readRequest, serve, go or the loop back edge), " +
-		"C10-handler-once (the unbind route's handler is invoked exactly once iff one is registered, with this request and writer), C10-silent (gldap writes no response on that path), C10-classify (UnbindMessage <-> unbindRouteOperation <-> APP[2])."
+		"C10-handler-once (the unbind route's handler is invoked exactly once iff one is registered, with this request and writer), C10-silent (gldap writes no response on that path), C10-classify (UnbindMessage <-> unbindRouteOperation <-> APP[2]), C10-inflight-waited (the teardown waits for the handlers dispatched before the Unbind - requestsWg.Add happens before the go statement, Wait precedes Close: rules C08-paired / C08-sequence)."
 	Descriptions["C13"] = "C13-inline (StartTLS dispatch is a plain call in the read loop), C13-rawhandshake (tls.Server on a load of conn.netConn; initConn reached only when Handshake returned nil, with that very tls.Conn), " +
 		"C13-pair (initConn stores netConn, reader=bufio.NewReader(x), writer=bufio.NewWriter(x) for the same x under conn.mu; these fields are written nowhere else), " +
 		"C13-fresh-writer (c.writer is re-loaded in every loop iteration; c.reader at every ReadPacket), C13-no-bypass (no direct Read/Write on the socket, no tls.Conn.NetConn), C13-deadline (a deadline armed on the socket in mid-session is cleared for each direction it covered on every path to a success return). Does not decide crypto/tls behaviour."
@@ -591,6 +592,23 @@ func checkC10(c *Ctx) {
 		R.Check(km.typeToOp["UnbindMessage"] == c.unbindConst(), "C10-classify", "newRequest: *UnbindMessage -> unbindRouteOperation", c.P.Pos(km.newRequest.Pos()), "type switch maps it", "newRequest maps *UnbindMessage to "+km.typeToOp["UnbindMessage"])
 		R.Check(km.kindToType[km.tagToKind[2]] == "UnbindMessage", "C10-classify", "APP[2] -> unbind kind -> *UnbindMessage", c.P.Pos(km.newMessage.Pos()), "requestType/newMessage tables compose", "protocolOp tag 2 is not decoded into an *UnbindMessage")
 	}
+	// ---- C10-inflight-waited: "the connection is then closed once earlier in-flight handlers have finished" rests on
+	// the requestsWg pairing and the Wait -> Close order of the teardown (C08)
+	{
+		tmp := &Ctx{P: c.P, R: report.New("tmp"), Tier: c.Tier, Sub: true}
+		checkC08(tmp)
+		for _, o := range tmp.R.Obls {
+			if o.Rule == "C08-paired" || (o.Rule == "C08-sequence" && (strings.Contains(o.Construct, "Wait") || strings.Contains(o.Construct, "Close"))) {
+				switch o.Status {
+				case report.Discharged:
+					R.OK("C10-inflight-waited", o.Construct, o.Pos, o.Detail)
+				default:
+					R.Fail("C10-inflight-waited", o.Construct, o.Pos, o.Detail)
+				}
+			}
+		}
+		R.Floor("C10-inflight-waited", 2)
+	}
 }
 
 // ------------------------------------------------------------------ C13
@@ -771,6 +789,41 @@ func checkC13(c *Ctx) {
 			fresh = false
 		}
 		R.Check(fresh, "C13-fresh-writer", "(*conn).serveRequests: c.writer loaded per iteration", c.pos(s), "the writer handed to the next request's ResponseWriter is read inside the loop, after the previous (inline) StartTLS handler returned", "c.writer is cached across iterations: after StartTLS responses would bypass TLS")
+	}
+	// nobody else holds on to c.writer: every read of the field happens inside the read loop (or in a helper the loop
+	// runs synchronously), so that what it yields is used before the next StartTLS can replace the pair; a writer read
+	// once per connection (in the connection goroutine, a watcher, a constructor) keeps pointing at the plain socket
+	// after an upgrade
+	inLoop := func(in ssa.Instruction) bool { return loopHeadOf(in) == m.loopHead || in.Block() == m.loopHead }
+	for _, f := range shipped {
+		an.Instrs(f, func(in ssa.Instruction) {
+			ld, isLd := in.(*ssa.UnOp)
+			if !isLd || ld.Op != token.MUL {
+				return
+			}
+			if _, isW := fieldAddr(ld.X, G, "conn", "writer"); !isW {
+				return
+			}
+			okSite := false
+			switch {
+			case f == m.serve:
+				okSite = inLoop(ld)
+			case f == initConn:
+				okSite = true
+			default:
+				if okSync, _ := syncOnlyFrom(f, m.serve, shipped, 0); okSync {
+					okSite = true
+					for _, ci := range an.Calls(m.serve) {
+						for _, u := range syncCalleesOf(ci) {
+							if (u == f || reachesSync(u, f, map[*ssa.Function]bool{})) && !inLoop(ci) {
+								okSite = false
+							}
+						}
+					}
+				}
+			}
+			R.Check(okSite, "C13-fresh-writer", fname(f)+": read of c.writer", c.pos(ld), "read inside the read loop, per request", "c.writer is read outside the read loop ("+fname(f)+"): what is built from it keeps writing to the old stream after StartTLS has replaced the reader/writer pair - bytes would leave the connection outside the TLS tunnel")
+		})
 	}
 	for _, ci := range callSites(shipped, func(cc *ssa.CallCommon) bool { return an.CalleeIs(cc, an.PkgBer, "ReadPacket") }) {
 		a0 := ci.Common().Args[0]
